@@ -239,4 +239,49 @@ def fmtColorFunc (ops : NumOps) (p : Prefs) (items : List CItem) : Except Err Cp
 def fmtColorSimple (p : Prefs) (t : ItemType) (v : Cps) : Cps :=
   outValue (outAppend p [] (outValue (outAppend p [] v false t)) false .other)
 
+
+/-! ## `calc()` (`serialize.py:1135-1156` `do_css_CSSCalc`, `Out.append(..., alwaysS=True)`) -/
+
+/-- the items of a `CSSCalc.seq`, nested `calc()` values flattened with brackets -/
+inductive CalcTok where
+  | func (v : Cps)                          -- `('FUNCTION', 'calc(')` (as written, not normalised)
+  | operand (typ : NumType) (tokval : Cps)  -- `('DIMENSION', DimensionValue)`
+  | op (v : Cps)                            -- `('CHAR', '+')` …
+  | s                                       -- `('S', ' ')`: ignored by `Out.append` (`keepS=False`)
+  | rparen
+  | openNested | closeNested                -- `('CSSCalc', CSSCalc)`: its items follow between the two
+deriving DecidableEq, Repr, Inhabited
+
+/-- `out.append(val, 'CHAR', alwaysS=True)` for an operator (`serialize.py:252` skipped because of `alwaysS`,
+`:268-271` APPEND, `:276-277` POST: **always** one space, whatever `prefs.spacer` is) -/
+def outAppendOperator (out : List Cps) (val : Cps) : List Cps :=
+  (if val.getLast? = some 0x20 then removeLastIfS out else out) ++ [val, [0x20]]
+
+/-- `do_css_CSSCalc` over the flattened items; `stack` holds the `Out` lists of the enclosing `calc()` values -/
+def fmtCalcAux (ops : NumOps) (p : Prefs) : List CalcTok → List Cps → List (List Cps) → Except Err Cps
+  | [], cur, [] => .ok (outValue cur)
+  | [], _, _ :: _ => .error .protocol
+  | .func v :: t, cur, st => fmtCalcAux ops p t (outAppend p cur v false .function) st
+  | .operand typ tv :: t, cur, st =>
+    match parseDim typ tv with
+    | .error e => .error e
+    | .ok d =>
+      match fmtNum ops p d with
+      | .error e => .error e
+      -- `out.append(cssText, type_)`: the text, not the object
+      | .ok txt => fmtCalcAux ops p t (outAppend p cur txt false .dimension) st
+  | .op v :: t, cur, st =>
+    -- `elif type_ == 'CHAR' and val in '-+*/'`
+    if !v.isEmpty && isSubstr v (cps "-+*/") then fmtCalcAux ops p t (outAppendOperator cur v) st
+    else fmtCalcAux ops p t (outAppend p cur v false .char) st
+  | .s :: t, cur, st => fmtCalcAux ops p t cur st
+  | .rparen :: t, cur, st => fmtCalcAux ops p t (outAppend p cur (cps ")") false .char) st
+  | .openNested :: t, cur, st => fmtCalcAux ops p t [] (cur :: st)
+  | .closeNested :: t, cur, st =>
+    match st with
+    | [] => .error .protocol
+    | parent :: st' => fmtCalcAux ops p t (outAppend p parent (outValue cur) false .other) st'
+
+def fmtCalc (ops : NumOps) (p : Prefs) (items : List CalcTok) : Except Err Cps := fmtCalcAux ops p items [] []
+
 end CssVerif.Num
